@@ -110,6 +110,39 @@ def main() -> int:
                     spec_failures.append({"suite": "metamorphic-rename", "dialect": d, "pool": "one-binding",
                                           "original_sql": astgen.to_sql(sa), "renamed_sql": astgen.to_sql(sb), "original_result": x, "renamed_result": y,
                                           "spec": "two derived tables in sibling scopes may share an alias: renaming one of them to a fresh name changes nothing"})
+        # references with more than two parts whose HEAD is a statement-local name (a field of a structured column reached
+        # through an alias: alias.column.field, or alias.column.field.sub): templates, the local name is {A}
+        if d in ("ansi", "bigquery", "sparksql") or not quick:
+            templ = [
+                "insert into tgt select {A}.payload.id, {A}.ts from events {AS}{A}",
+                "insert into tgt select {A}.payload.id, u.name from events {AS}{A} join users u on {A}.uid = u.id",
+                "insert into tgt select {A}.payload.id from (select payload from events) {AS}{A}",
+                "insert into tgt with {A} as (select payload from events) select {A}.payload.id from {A}",
+                "insert into s.tgt select {A}.payload.geo.lat as lat, {A}.k from s.events {AS}{A}",
+                "create table tgt as select {A}.payload.id as pid, {B}.info.tag as tag from events {AS}{A}, users {AS}{B}",
+                "insert into tgt select {A}.payload.id from events {AS}{A} where {A}.k in (select k from users)",
+            ]
+            names = [("e", "u2"), ("ev", "x1"), ("sub_q", "w"), ("staged", "z9"), ("orders", "clients")]
+            cases = []
+            for t in templ:
+                for asw in ("", "as "):
+                    for a, b2 in names:
+                        cases.append((t, t.replace("{AS}", asw).replace("{A}", a).replace("{B}", b2)))
+            got3 = t2tie.summaries([{"sql": c, "dialect": d, "metadata": None, "config": {}} for _, c in cases])
+            first = {}
+            for (t, c), g in zip(cases, got3):
+                ck.count()
+                dist["pools"]["multi-part-reference-head"] = dist["pools"].get("multi-part-reference-head", 0) + 1
+                if g.startswith("ERR:InvalidSyntax"):
+                    dist["rejected_by_parser"] += 1
+                    continue
+                ck.nontriv((d, "multi-part-reference-head", c))
+                if t not in first:
+                    first[t] = (c, g)
+                elif first[t][1] != g:
+                    spec_failures.append({"suite": "metamorphic-rename", "dialect": d, "pool": "multi-part-reference-head",
+                                          "original_sql": first[t][0], "renamed_sql": c, "original_result": first[t][1], "renamed_result": g,
+                                          "spec": "renaming statement-local names (or adding/removing AS) leaves tables and end-to-end column pairs unchanged"})
         # tie on a renamed variant
         recs = []
         for s in stmts[: (40 if quick else 300)]:
